@@ -117,6 +117,34 @@ theorem redirect_ok {p ok f fl c a c'} (h : M.redirect p ok f fl c = (Res.ok a, 
       cases oracle c <;> simp [pure_apply, M.fail, M.stop, M.act, M.modify, tick]
   have := hk c; rw [h] at this; exact this
 
+/-- What `Redirector.Redirect` queues: at most the two flash messages, then the response. -/
+theorem redirect_acts (p : Bytes) (ok f : Option Txt) (fl : Bool) (c : Ctx) :
+    ∃ ext, (M.redirect p ok f fl c).2.acts = c.acts ++ ext ∧
+      ∀ a ∈ ext, (∃ v, a = Act.sess (.put .flashOk v)) ∨ (∃ v, a = Act.sess (.put .flashErr v)) ∨ (∃ r, a = Act.respond r) := by
+  unfold M.redirect
+  simp only [bind_apply, M.get]
+  cases hj : c.cfg.json
+  · cases ok <;> cases f <;>
+      simp only [Bool.false_eq_true, if_false, M.putS, M.act, M.modify, bind_apply, pure_apply, List.append_assoc] <;>
+      refine ⟨_, rfl, ?_⟩ <;> intro a ha <;> simp at ha
+    · exact Or.inr (Or.inr ⟨_, ha⟩)
+    · rcases ha with ha | ha
+      · exact Or.inr (Or.inl ⟨_, ha⟩)
+      · exact Or.inr (Or.inr ⟨_, ha⟩)
+    · rcases ha with ha | ha
+      · exact Or.inl ⟨_, ha⟩
+      · exact Or.inr (Or.inr ⟨_, ha⟩)
+    · rcases ha with ha | ha | ha
+      · exact Or.inl ⟨_, ha⟩
+      · exact Or.inr (Or.inl ⟨_, ha⟩)
+      · exact Or.inr (Or.inr ⟨_, ha⟩)
+  · simp only [if_true, M.render, bind_apply, backend_eq]
+    cases oracle c
+    · simp only [pure_apply, Bool.false_eq_true, if_false, M.act, M.modify, tick]
+      exact ⟨_, rfl, by intro a ha; simp at ha; exact Or.inr (Or.inr ⟨_, ha⟩)⟩
+    · simp only [pure_apply, if_true, M.fail, M.stop, tick]
+      exact ⟨[], by simp, by intro a ha; cases ha⟩
+
 theorem lockUpdate_true_keeps (Q) (hQ : StableQ Q) (c : Ctx) (hi : UserInv Q c) (b : Bool) :
     Ret (fun _ c' => UserInv Q c') (lockUpdate true b) c := by
   obtain ⟨u, hu, hq⟩ := hi
